@@ -109,7 +109,7 @@ def _concat(repo, col):
         t = unparse(npb[0].stmt.value) if npb else ""
         want = {"Branch": "np.asarray([self.ncomp])", "Cell": "np.asarray([branch.ncomp for branch in branch_list])",
                 "Network": "np.concatenate([cell.ncomp_per_branch for cell in cells])"}[cls]
-        col.check(bool(npb) and idx.same_expr(repo, fi, npb[0].stmt, npb[0].stmt.value, want), R, fi,
+        col.check(bool(npb) and idx.same_expr(repo, fi, npb[0].stmt, npb[0].stmt.value, want, locals_from={"branch_list": "branches"}), R, fi,
                   f"{cls}: ncomp_per_branch taken from the constituents in order", want,
                   f"ncomp_per_branch is {t}", node=npb[0].node if npb else fi.node)
         cs = [s for s in ex.stores if s.kind == "attr" and s.key.name == "cumsum_ncomp"]
@@ -214,10 +214,12 @@ def _offsets(repo, col):
     col.check(bool(cb) and idx.same_expr(repo, fi, cb[0].stmt, cb[0].stmt.value, "cumsum_leading_zero(self.nbranches_per_cell)"), R, fi,
               "branch offsets = leading-zero cumsum of the cells' branch counts", "", f"is {unparse(cb[0].stmt.value) if cb else None}",
               node=cb[0].node if cb else fi.node)
-    nb = next((n for n in walk_no_nested(fi.node) if isinstance(n, ast.Assign) and unparse(n.targets[0]) == "nbranchpoints"), None)
-    ok = nb is not None and idx.same_expr(repo, fi, nb, nb.value, "jnp.asarray([len(cell._par_inds) for cell in cells])")
+    # (located by what consumes it: the leading-zero cumsum stored as _cumsum_nbranchpoints_per_cell, whatever the local is called)
+    cbp = [s_ for s_ in ex.stores if s_.kind == "attr" and s_.key.name == "_cumsum_nbranchpoints_per_cell"]
+    ok = bool(cbp) and idx.same_expr(repo, fi, cbp[0].stmt, cbp[0].stmt.value,
+                                     "cumsum_leading_zero(jnp.asarray([len(cell._par_inds) for cell in cells]))")
     col.check(ok, R, fi, "branch points per cell = number of distinct parent branches of that cell", "",
-              f"nbranchpoints is {unparse(nb.value) if nb else None}", node=nb or fi.node)
+              f"the per-cell branch-point offsets are {cbp[0].value.short(100) if cbp else None}", node=cbp[0].node if cbp else fi.node)
     from . import c01_solver as _c01s
     _c01s.consecutive_rank(repo, col, R)
     # merge_cells offsets: every level table of cell i is shifted by [branch offset of i, branch-point offset of i]
